@@ -110,7 +110,7 @@ def group_hll_consts():
 
 def group_reservoir():
     src = strip_comments(open(os.path.join(REPO, "src/reservoirsampling.rs")).read())
-    m = re.search(r"let t = self\.k\.saturating_mul\((\d+)\);", src) or re.search(r"let t = self\.k \* (\d+);", src)
+    m = re.search(r"let \w+ = self\.k\.saturating_mul\((\d+)\);", src) or re.search(r"let \w+ = self\.k \* (\d+);", src)
     if not m: die("reservoir phase factor not found")
     return ["def reservoirPhaseFactor : Nat := %s" % m.group(1)]
 
